@@ -69,6 +69,10 @@ pub struct KCfg {
     /// A kernel older than 6.6: IORING_SETUP_NO_SQARRAY is refused (EINVAL);
     /// without the flag the submission index array is in use.
     pub old_kernel: bool,
+    /// Per cent: the synchronous unregistration of a direct descriptor
+    /// (REGISTER_FILES_UPDATE) is refused; the slot stays in use, which is
+    /// then not a10's doing.
+    pub p_sync_direct_close_refused: u32,
     /// SYNC_CANCEL lets ops finish instead of cancelling, percent.
     pub p_sync_cancel_finish: u32,
     /// Percent chance IORING_OP_PIPE is "not supported" (EINVAL): a10 falls
@@ -103,6 +107,7 @@ impl Default for KCfg {
             p_prep_fail: 0,
             p_notif_survives: 0,
             old_kernel: false,
+            p_sync_direct_close_refused: 0,
             p_sync_cancel_finish: 0,
             p_pipe_einval: 0,
             pool_pick_any: false,
@@ -328,6 +333,8 @@ pub struct Ring {
     pub slot_src: BTreeMap<u32, i32>,
     /// The only thread that may enter a single-issuer ring (if named).
     pub submitter: Option<usize>,
+    /// Direct slots whose synchronous close the kernel refused.
+    pub refused_slots: Vec<u32>,
     /// Number of io_uring_enter calls with IORING_ENTER_GETEVENTS.
     pub getevents_enters: u64,
     pub delivered_slots: Vec<u32>,
@@ -665,7 +672,7 @@ impl Kernel {
             Some(t) => t
                 .iter()
                 .enumerate()
-                .filter(|(_, s)| s.is_some())
+                .filter(|(i, s)| s.is_some() && !self.rings[ring].refused_slots.contains(&(*i as u32)))
                 .map(|(i, _)| i as u32)
                 .collect(),
             None => Vec::new(),
@@ -946,6 +953,7 @@ impl Kernel {
             files: None,
             slot_src: BTreeMap::new(),
             submitter: None,
+            refused_slots: Vec::new(),
             getevents_enters: 0,
             delivered_slots: Vec::new(),
             published: VecDeque::new(),
@@ -1714,6 +1722,15 @@ impl Kernel {
                     return fail(libc::EINVAL);
                 }
                 stats::inc(C::probe_sync_close_fallback);
+                if tape::chance(site::FAULT, self.cfg.p_sync_direct_close_refused, 100) {
+                    stats::inc(C::fault_register_fail);
+                    ev!("k REGISTER_FILES_UPDATE slot {} -> ENOMEM (refused, the slot stays in use)", up.offset);
+                    // Nobody can close it any more: exempt from the ledger.
+                    if let Some(Some(_)) = self.rings[r].files.as_ref().and_then(|t| t.get(up.offset as usize)) {
+                        self.rings[r].refused_slots.push(up.offset);
+                    }
+                    return fail(libc::ENOMEM);
+                }
                 let res = self.close_direct(r, up.offset, "REGISTER_FILES_UPDATE");
                 if res < 0 { fail(-res) } else { 1 }
             }
@@ -1898,8 +1915,16 @@ impl Kernel {
             self.foreign_fds.swap_remove(pos);
             stats::inc(C::probe_sync_close_fallback);
             ev!("k close real descriptor via close(2)");
+            return None;
         }
-        None
+        // Anything else is a number a10 does not own (an index of a direct
+        // descriptor used as a descriptor, ...): report it, and do not let
+        // it close a descriptor of this process.
+        violation(
+            "fd.wrong-kind",
+            format!("close(2) of descriptor {fd}, which no AsyncFd owns as a regular descriptor"),
+        );
+        Some(fail(libc::EBADF))
     }
 
     /// Update `fd_closed` of rings by asking the real descriptor table.
